@@ -1,4 +1,4 @@
-From Coq Require Import List NArith Bool.
+From Coq Require Import List NArith Bool Lia Arith.
 From IdV Require Import Lib.Outcome Lib.Base64 Cred.Bitmap Panic.Sites.
 Import ListNotations.
 Open Scope N_scope.
@@ -13,3 +13,29 @@ Proof. unfold integrity_parse. destruct (split_dash s) as [[a rest]|] eqn:E; [|d
 Definition integrity_parse_lenient (s : list N) : option (list N) := match split_dash s with None => None | Some _ => Some s end.
 Theorem lenient_parse_panics : exists s v, integrity_parse_lenient s = Some v /\ im_digest_bytes v = Panic.
 Proof. exists [97; 45; 65; 61], [97; 45; 65; 61]. split; vm_compute; reflexivity. Qed.
+
+(* ---------- MethodDigest ---------- *)
+Lemma from_le_bytes n : forall v, v < 256 ^ N.of_nat n -> from_le (le_bytes n v) = v.
+Proof. induction n as [|m IH]; intros v H; cbn [le_bytes from_le].
+  - cbn in H. lia.
+  - rewrite Nat2N.inj_succ, N.pow_succ_r' in H. rewrite IH; [|apply N.div_lt_upper_bound; lia]. pose proof (N.div_mod v 256). lia. Qed.
+Lemma le_bytes_length n : forall v, length (le_bytes n v) = n.
+Proof. induction n as [|m IH]; intros v; cbn [le_bytes length]; [reflexivity|]. rewrite IH. reflexivity. Qed.
+Theorem md_unpack_never_panics bytes : md_unpack true bytes <> Panic.
+Proof. unfold md_unpack. cbn [andb]. destruct (Nat.eqb (length bytes) 9) eqn:E; cbn [negb]; [|discriminate].
+  apply Nat.eqb_eq in E. destruct bytes as [|b0 r]; [discriminate E|]. unfold idx. cbn [nth_error]. destruct (negb (b0 =? 0)); [discriminate|].
+  unfold slice. rewrite E. cbn [Nat.ltb Nat.leb]. destruct (Nat.eqb _ 8); discriminate. Qed.
+Theorem md_unpack_pack d : md_version d = 0 -> md_value d < 18446744073709551616 -> md_unpack true (md_pack d) = Ok d.
+Proof. intros Hv Hm. unfold md_unpack, md_pack. cbn [length]. rewrite le_bytes_length. cbn [Nat.eqb negb andb]. unfold idx. cbn [nth_error]. rewrite Hv. cbn [N.eqb negb].
+  unfold slice. cbn [length]. rewrite le_bytes_length. cbn [Nat.ltb Nat.leb Nat.sub skipn].
+  pose proof (firstn_all (le_bytes 8 (md_value d))) as F. rewrite le_bytes_length in F. rewrite F.
+  rewrite le_bytes_length. cbn [Nat.eqb]. rewrite from_le_bytes; [destruct d; cbn in *; subst; reflexivity|]. cbn. exact Hm. Qed.
+Theorem md_unpack_accepts_only_packed bytes d : md_unpack true bytes = Ok d -> Forall (fun b => b < 256) bytes -> md_version d = 0 /\ length bytes = 9%nat /\ md_value d < 18446744073709551616.
+Proof. unfold md_unpack. cbn [andb]. destruct (Nat.eqb (length bytes) 9) eqn:E; cbn [negb]; [|discriminate]. apply Nat.eqb_eq in E.
+  destruct bytes as [|b0 [|b1 [|b2 [|b3 [|b4 [|b5 [|b6 [|b7 [|b8 [|b9 r]]]]]]]]]]; try discriminate E. unfold idx. cbn [nth_error].
+  destruct (b0 =? 0) eqn:B; cbn [negb]; [|discriminate]. apply N.eqb_eq in B. unfold slice. cbn [length Nat.ltb Nat.leb Nat.sub skipn firstn Nat.eqb]. intros H F.
+  assert (Hd : d = {| md_version := b0; md_value := from_le [b1; b2; b3; b4; b5; b6; b7; b8] |}) by congruence. subst d. cbn [md_version md_value from_le].
+  repeat match goal with H : Forall _ (_ :: _) |- _ => inversion H; subst; clear H end. split; [reflexivity|]. split; [reflexivity|]. lia. Qed.
+(* without the length test the indexing panics on short input *)
+Theorem md_unpack_unguarded_panics : md_unpack false [] = Panic /\ md_unpack false [0; 1; 2] = Panic.
+Proof. split; reflexivity. Qed.
